@@ -111,6 +111,21 @@ def gen_obj_case(seed, idx, sigs, cls_name=None, n_points=60):
                 case.fail("C17", "argument-modified", f"the caller's array {list(p)} came back as {row.tolist()}", cls=cls_name)
             elif va != v or vb != v or vt != v:
                 case.fail("C17", "impure", f"f({p}) = {v!r} as a list, {va!r} / {vb!r} as an array, {vt!r} as a tuple", cls=cls_name)
+    # one mutable point object refilled in place between evaluations (a list, a NumPy buffer swept over a grid): the value
+    # is a function of the coordinates, not of the object they arrive in
+    try:
+        buf_l, buf_a = list(pts[0]), np.array(pts[0], dtype=float)
+        for p in pts[1:8]:
+            if len(p) != len(buf_l):
+                continue
+            want = float(obj.f(list(p)))
+            obj.f(buf_l); buf_l[:] = list(p); got_l = float(obj.f(buf_l))
+            obj.f(buf_a); buf_a[:] = p; got_a = float(obj.f(buf_a))
+            if got_l != want or got_a != want:
+                case.fail("C17", "impure", f"a point buffer refilled in place with {p}: f = {got_l!r} (list) / {got_a!r} (array), a fresh list gives {want!r}", cls=cls_name)
+                break
+    except Exception as e:
+        case.fail("C17", "exception-in-domain", f"{type(e).__name__}: {e} with a reused point buffer", cls=cls_name)
     # purity across calls: the same object must give what a fresh object gives, whatever it evaluated before
     if DOMAINS[cls_name] is None:
         fresh, _ = construct(cls_name, random.Random(f"obj-{seed}-{idx}-{cls_name}"))
